@@ -23,4 +23,6 @@ CONTROLS = [
     dict(name="DELETE written on the collection route",
          edits=[(F, '            paths[_route]["delete"] = {', '            paths[route] = {"delete": {}}\n            paths[_route]["delete"] = {')],
          expect=r"ensures\[(3|9)\]"),
+    dict(name="BENIGN: local `_id` renamed throughout emit_openapi_utils.py", benign=True,
+         edits=[("cdd/compound/openapi/utils/emit_openapi_utils.py", "_id", "pk_name", "rename")]),
 ]
